@@ -66,3 +66,8 @@ Print Assumptions Goldilocks.C18_legendre.
 Print Assumptions Goldilocks.C18_sqrt_of_square.
 Print Assumptions Goldilocks.C18_sqrt_of_nonsquare.
 Print Assumptions C18_glue_is_the_source.
+
+Print Assumptions BN254.C18_sqrt_of_zero.
+Print Assumptions Goldilocks.C18_sqrt_of_zero.
+Print Assumptions BN254.C18_sqrt_terminates.
+Print Assumptions Goldilocks.C18_sqrt_terminates.
